@@ -292,7 +292,7 @@ def app_of(o):
     p = net.parse_frame(o.reply)
     if p is None or p.proto not in (6, 17):
         return ("R", "other")
-    return ("R", p.proto, runner.DATE_RE.sub(b"\nDate: X\n", bytes(p.app)))
+    return ("R", p.proto, runner.mask_app(p.app))
 
 
 def evaluate_custom(scripts, drivers):
